@@ -193,6 +193,9 @@ def check_collection_order(spec, ctx):
     ctx.eq("collection_children_stable", [str(k.guid) for k in kids], [str(k.guid) for k in exp])
     if len(set(starts)) < len(starts):
         ctx.label("equal_starts")
+    vstarts = [v.start for v in coll.variant_collections]
+    if len(vstarts) >= 2 and vstarts != sorted(vstarts):
+        ctx.label("variant_collections_given_unsorted")
     ctx.eq("collection_iter_equals_children", [str(k.guid) for k in coll], [str(k.guid) for k in kids])
     nv = list(coll.iter_non_variant_children())
     ctx.eq("non_variant_children", sorted(str(k.guid) for k in nv), sorted(str(k.guid) for k in list(coll.genes) + list(coll.feature_collections)))
@@ -270,6 +273,15 @@ def strat_coll(draw, tier="quick"):
     o = draw(S.collection_spec(max_genes=3, max_fcs=3, region_step=0))
     o.pop("hi")
     # shuffle member lists
+    # several variant collections (single SNVs anywhere in the span, also tying on start with genes), in any list order
+    nv = draw(st.integers(0, 3))
+    lo = min([t["exons"][0][0] for g_ in o["genes"] for t in g_["transcripts"]] + [f["blocks"][0][0] for c in o["feature_collections"] for f in c["features"]] + [0])
+    hi = max([t["exons"][-1][1] for g_ in o["genes"] for t in g_["transcripts"]] + [f["blocks"][-1][1] for c in o["feature_collections"] for f in c["features"]] + [5])
+    vcs = list(o.get("variant_collections") or [])
+    for i in range(nv):
+        p_ = draw(st.integers(lo, hi + 3))
+        vcs.append({"variants": [{"start": p_, "end": p_ + 1, "sequence": "G", "variant_type": "SNV", "variant_id": "sv%d" % i}], "variant_collection_id": "svc%d" % i, "qualifiers": {}})
+    o["variant_collections"] = list(draw(st.permutations(vcs)))
     o["genes"] = list(draw(st.permutations(o["genes"])))
     o["feature_collections"] = list(draw(st.permutations(o["feature_collections"])))
     return {"obj": o}
@@ -285,7 +297,7 @@ PROP = Prop(
             must_hit=["length_tie", "two_primary_flags", "mixed_strand"],
             rule="feature collections with 1..5 features, shifted copies for length ties, strand mix, primary flags"),
         Leg("collection_order", check_collection_order, strategy=strat_coll, n_quick=250, n_thorough=2500, shards_quick=4,
-            must_hit=["equal_starts"],
+            must_hit=["equal_starts", "variant_collections_given_unsorted"],
             rule="annotation collections with shuffled member lists; iteration order by start, stable"),
     ],
     rule="Oracle: min/max, set union of positions (PosModel), any(), union of types, argmax by (CDS length, spliced length, -index) or the single flagged "
